@@ -106,11 +106,38 @@ func init() {
 		"documents deeper / arrays longer / strings longer than the bounds", "Go-struct documents (C18)"}
 	mk("C01", familyCore, "CORE", 2, 2, 3, 3, "public Search on core-fragment templates vs. the specification evaluator, for every document and index in the bounds", outs)
 	mk2("C02", familyProj, "PROJ", 2, 2, 3, 2, "public Search on projection templates vs. the specification evaluator (object wildcards compared as multisets, every member order explored)", outs)
+	mk2("C09", familyFunc, "FUNC", 2, 3, 2, 3, "every built-in on every argument tuple over two lazy document members and an expression reference, vs. the function specification (value and error-ness)", outs)
+	mk2("C10", familyFunc, "FUNC", 2, 3, 2, 3, "every built-in on every argument tuple incl. wrong arity and expression references: an ill-typed call must be an error, never a value, never a panic", outs)
+	specs["C10"].Panics = true
+	mk2("C11", familyCtx, "CTX", 2, 2, 2, 2, "an erroring sub-expression in every strict (and every non-strict) position of every construct: Search errs iff the specification says the error is reached", outs)
+	for _, p := range []string{"C09", "C10"} {
+		sp := specs[p]
+		inner := sp.Jobs
+		sp.Jobs = func(tier string) []*Job {
+			js := inner(tier)
+			for _, j := range js {
+				j.NumBound = 1e30
+			}
+			return js
+		}
+		sp.Outside = append(append([]string{}, sp.Outside...), "numbers larger than 1e30 in magnitude (sums are then finite by construction)")
+	}
+	for _, p := range []string{"C10", "C11"} {
+		sp := specs[p]
+		inner := sp.Jobs
+		sp.Jobs = func(tier string) []*Job {
+			js := inner(tier)
+			for _, j := range js {
+				j.Params["onlyerr"] = "1"
+			}
+			return js
+		}
+	}
 	mk("C07", familyBool, "BOOL", 2, 2, 2, 2, "truthiness, logical operators and comparators vs. the specification, all finite doubles and strings in bounds", outs)
 }
 
 func cmdTemplates(args []string) {
-	fams := map[string]func(string) []tmpl{"core": familyCore, "proj": familyProj, "bool": familyBool, "prec": familyPrec}
+	fams := map[string]func(string) []tmpl{"core": familyCore, "proj": familyProj, "bool": familyBool, "prec": familyPrec, "func": familyFunc, "ctx": familyCtx}
 	tier := "quick"
 	if len(args) > 1 {
 		tier = args[1]
